@@ -65,6 +65,24 @@ def programs(ctx):
                 for u2 in by_type[t2][:2]:
                     p.convert(1, u2, 2)
     progs.append(p.d())
+    # ... also after the two units have been divided / multiplied (whatever those operations left behind)
+    p = Prog('c01cross')
+    lin = [t for t in LINEAR]
+    for t1 in lin:
+        for t2 in lin:
+            if t1 == t2:
+                continue
+            u1, u2 = by_type[t1][-1], by_type[t2][-1]
+            p.unit(3, u1)
+            p.unit(4, u2)
+            p.bin('Div', 3, 4, 5)
+            p.bin('Mul', 3, 4, 5)
+            p.make(1, t1, F(90), u1)
+            p.make(2, t2, F(2), u2)
+            p.bin('Div', 1, 2, 5)
+            p.convert(1, u2, 6)
+            p.convert(2, u1, 6)
+    progs.append(p.d())
     # random chains with larger values
     nrand = 40 if quick else 400
     for j in range(nrand):
